@@ -300,8 +300,43 @@ def t_beyond():
     return stats
 
 
+def t_long():
+    """arrays of 1000 elements, objects of 300 members, pointers of up to 99 tokens: every sampled node and the usual one-token faults"""
+    from ..gen import longq
+    stats = Stats()
+    n = 0
+    doc = {"a": list(range(1000)), "o": {"k%d" % i: [i] for i in range(300)}, "deep": longq.deep_a(98, leaf=[0, 1]), "": {"": {"": [7]}}}
+    idx = [0, 1, 9, 10, 11, 63, 64, 65, 99, 100, 101, 255, 256, 998, 999]
+    for i in idx:
+        judge(stats, doc, ["a", str(i)], "long")
+        judge(stats, doc, ["o", "k%d" % min(i, 299)], "long")
+        judge(stats, doc, ["o", "k%d" % min(i, 299), "0"], "long")
+        n += 3
+    for bad in ("1000", "1001", "0999", "00", "-", "10000000", "1e2", "99 ", " 99", "+99", "٩٩"):
+        judge(stats, doc, ["a", bad], "long")
+        judge(stats, doc, ["o", "k1", bad], "long")
+        n += 2
+    for bad in ("k300", "k", "K1", "k01", "k1 ", "1"):
+        judge(stats, doc, ["o", bad], "long")
+        n += 1
+    for depth in (1, 10, 50, 97, 98):
+        judge(stats, doc, ["deep"] + ["a"] * depth, "long")
+        n += 1
+    for tail in (["0"], ["1"], ["2"], ["a"], ["-"], ["0", "0"]):
+        judge(stats, doc, ["deep"] + ["a"] * 98 + tail, "long")
+        n += 1
+    for toks in (["", "", "", "0"], ["", "", "", "1"], ["", "", ""], ["", ""], [""], ["", "", "", "0", ""]):
+        judge(stats, doc, toks, "long")
+        n += 1
+    stats.nt("long", n)
+    stats.subspaces.append({"name": "pointers into a 1000-element array, a 300-member object, a 99-deep chain and empty-named members; 3- and 4-digit indices, faults at the far end",
+                            "size": n, "exhaustive": True})
+    return stats
+
+
 def tasks(tier, seed):
-    ts = [{"name": "exhaustive-%d" % k, "fn": "t_exhaustive", "kw": {"shard": k, "nshards": 16}} for k in range(16)]
+    ts = [{"name": "long", "fn": "t_long"}]
+    ts += [{"name": "exhaustive-%d" % k, "fn": "t_exhaustive", "kw": {"shard": k, "nshards": 16}} for k in range(16)]
     ts.append({"name": "beyond-limit", "fn": "t_beyond"})
     n = 600 if tier == "quick" else 12000
     for k in range(16):
